@@ -161,12 +161,26 @@ class _NonEmpty(Client):
             return (state | {src(node.func.value)},)
         if kind == "store":
             st = getattr(node, "_parent", None)
+            if isinstance(st, ast.For) and node is st.target:
+                # the body is entered with an element of the iterable: `for v in X` / `for v in X[k:]` says X is not empty
+                # (and so is every prefix copy `Y = X[:n]`, n >= 1, taken of it: the ties)
+                it = st.iter
+                if isinstance(it, ast.Subscript) and isinstance(it.slice, ast.Slice) and it.slice.step is None:
+                    it = it.value
+                if isinstance(it, (ast.Name, ast.Attribute)):
+                    base = src(it)
+                    state = frozenset(state | {base} | {t[1] for t in state if isinstance(t, tuple) and t[2] == base})
             if isinstance(node, (ast.Name, ast.Attribute)):
                 key = src(node)
-                if key in state:
-                    return (frozenset(state - {key}),)
-            if isinstance(st, ast.Tuple) or isinstance(node, ast.Tuple):
-                pass
+                state = frozenset(x for x in state if x != key and not (isinstance(x, tuple) and key in x[1:]))
+                v = st.value if isinstance(st, ast.Assign) and len(st.targets) == 1 and st.targets[0] is node else None
+                if isinstance(v, ast.Subscript) and isinstance(v.slice, ast.Slice) and v.slice.step is None \
+                        and const_value(v.slice.lower, 0) in (0, None) and isinstance(const_value(v.slice.upper, None), int) \
+                        and const_value(v.slice.upper, None) >= 1 and isinstance(v.value, (ast.Name, ast.Attribute)):
+                    # Y = X[:n], n >= 1: Y is empty exactly when X is
+                    base = src(v.value)
+                    state = frozenset(state | {("tie", key, base)} | ({key} if base in state else set()))
+                return (state,)
         if kind == "stmt" and isinstance(node, ast.Assign) and len(node.targets) == 1 \
                 and isinstance(node.targets[0], (ast.Tuple, ast.List)):
             v = node.value
@@ -344,7 +358,10 @@ def r2_dedup(prog, rep: Report, sf: SortedFacts):
             seed = loop is None and isinstance(arg, ast.Subscript) and const_value(arg.slice) == 0 \
                 and isinstance(arg.value, ast.Name) and isinstance(flow.expand(arg.value), ast.Call) \
                 and src(flow.expand(arg.value).func) == "sorted"
-            if filt and sorted_iter:
+            if filt and sorted_iter and not _skipped_values_seeded(loop, n.func.value, f):
+                verdicts.append((None, f"`{src(n)}`: the loop runs over `{src(loop.iter)}`; that the values it skips are stored beforehand "
+                                       "is not read", n))
+            elif filt and sorted_iter:
                 verdicts.append((True, "adjacent-inequality filter over a sorted iteration", n))
             elif filt is False and sorted_iter:
                 verdicts.append((False, filt_why, n))
@@ -396,6 +413,7 @@ def r2_dedup(prog, rep: Report, sf: SortedFacts):
     param = f.params[1] if len(f.params) > 1 else None
     flow = Flow(f.node)
     results = []
+    unrelated = []
     from ..util import iter_stores
     for t_, val_, n in iter_stores(f.node):
         if dotted(t_) != (f.self_name, ks) or val_ is None or not isinstance(n, ast.Assign):
@@ -432,6 +450,9 @@ def r2_dedup(prog, rep: Report, sf: SortedFacts):
             results.append((True, "key storage of another instance of the same class (unique by this rule)", n))
             continue
         d = _derives_via_dedup(nval, flow, param)
+        if d is None:
+            unrelated.append((n, f"key storage assigned from `{src(nval)}`: how this derives from the constructor argument is not read"))
+            continue
         results.append((d is True, f"key storage assigned from `{src(nval)}`"
                         + (" through dict()" if d else ": no de-duplicating (last-wins) step between the pairs and the storage"), n))
     # keys appended under an adjacent-inequality filter over a (stable) sorted order: the earliest of equal keys comes first,
@@ -456,8 +477,10 @@ def r2_dedup(prog, rep: Report, sf: SortedFacts):
                 results.append((True, "adjacent-inequality filter that overwrites the value of a repeated key (last wins)", n))
             else:
                 results.append((False, f"`{src(n)}` appends initial keys under `{src(guard.test)}`, which is not a de-duplicating test", n))
-    if not results:
+    if not results and not unrelated:
         rep.unrec("C09.R2", f, "map-dedup", "no write of initial keys into the storage found")
+    elif unrelated and not [r for r in results if not r[0]]:
+        rep.unrec("C09.R2", f, "map-dedup", "; ".join(u[1] for u in unrelated), unrelated[0][0].lineno)
     else:
         bad = [r for r in results if not r[0]]
         rep.check("C09.R2", f, "map-dedup", not bad, "; ".join(r[1] for r in results), "; ".join(r[1] for r in bad),
@@ -500,10 +523,38 @@ def _enclosing_loop(n):
     return None
 
 
+def _tail_slice(it) -> Optional[int]:
+    """k for `X[k:]` (X a name, k a non-negative constant), else None"""
+    if isinstance(it, ast.Subscript) and isinstance(it.slice, ast.Slice) and it.slice.upper is None and it.slice.step is None \
+            and isinstance(it.value, ast.Name):
+        k = const_value(it.slice.lower, 0)
+        if isinstance(k, int) and not isinstance(k, bool) and k >= 0:
+            return k
+    return None
+
+
+def _skipped_values_seeded(loop, storage: ast.expr, f: Func) -> bool:
+    """the loop runs over `X[1:]`: the one value it skips has to be in the storage already (`S = X[:1]`, the only assignment of the
+    local S before the loop)"""
+    k = _tail_slice(loop.iter)
+    if not k:
+        return True
+    if k != 1 or not isinstance(storage, ast.Name):
+        return False
+    seeds = [n for n in walk_own(f.node) if isinstance(n, ast.Assign) and any(isinstance(t, ast.Name) and t.id == storage.id for t in n.targets)]
+    if len(seeds) != 1 or not before(f.node, seeds[0], loop):
+        return False
+    v = seeds[0].value
+    return isinstance(v, ast.Subscript) and isinstance(v.slice, ast.Slice) and v.slice.step is None \
+        and const_value(v.slice.lower, 0) == 0 and const_value(v.slice.upper, None) == 1 and src(v.value) == src(loop.iter.value)
+
+
 def _iter_is_sorted(loop, flow: Flow) -> bool:
     if not isinstance(loop, ast.For):
         return False
     it = loop.iter
+    if _tail_slice(it) is not None:            # for v in ordered[1:]: the tail of a sorted list is sorted
+        it = it.value
     for _ in range(4):                         # it = iter(sorted(values)) / a named sorted list
         if isinstance(it, ast.Name):
             it = flow.expand(it)
@@ -648,7 +699,11 @@ def _under_isinstance(n, param, clsname) -> bool:
 def _is_gather_of(e, f: Func, fld: str) -> bool:
     """[self.<fld>[i] for i in perm]  or a local list built as  L = []; for i in perm: L.append(self.<fld>[i]) ..."""
     if isinstance(e, ast.ListComp):
-        return isinstance(e.elt, ast.Subscript) and dotted(e.elt.value) == (f.self_name, fld) \
+        base = e.elt.value if isinstance(e.elt, ast.Subscript) else None
+        if isinstance(base, ast.Name):
+            # unsorted_keys = self.<fld>  (the list the storage held before this assignment), gathered from by name
+            base = Flow(f.node).expand(base)
+        return isinstance(e.elt, ast.Subscript) and dotted(base) == (f.self_name, fld) \
             and isinstance(e.elt.slice, ast.Name) and isinstance(e.generators[0].target, ast.Name) \
             and e.elt.slice.id == e.generators[0].target.id
     if isinstance(e, ast.Name):
